@@ -164,9 +164,41 @@ type rview struct {
 	base   map[string][]byte
 	parent *rview            // a snapshot reads through its (live) parent: writes are visible to descendants
 	local  map[string][]byte // value nil => deleted locally
+	sub    []byte            // non-nil: this view is parent.Subset(sub): a window, writes go to the parent
+}
+
+// own writes of the view as its Changes() must report them
+func (rv *rview) writes() map[string][]byte {
+	if rv.sub != nil {
+		m := map[string][]byte{}
+		for k, v := range rv.parent.writes() {
+			if bytes.HasPrefix([]byte(k), rv.sub) {
+				m[k[len(rv.sub):]] = v
+			}
+		}
+		return m
+	}
+	return rv.local
+}
+
+func (rv *rview) write(k []byte, v []byte) {
+	if rv.sub != nil {
+		rv.parent.write(append(append([]byte{}, rv.sub...), k...), v)
+		return
+	}
+	rv.local[string(k)] = v
 }
 
 func (rv *rview) content() map[string][]byte {
+	if rv.sub != nil {
+		m := map[string][]byte{}
+		for k, v := range rv.parent.content() {
+			if bytes.HasPrefix([]byte(k), rv.sub) {
+				m[k[len(rv.sub):]] = v
+			}
+		}
+		return m
+	}
 	m := map[string][]byte{}
 	if rv.parent != nil {
 		m = rv.parent.content()
@@ -487,17 +519,48 @@ func (s *seqRun) doWrite(slot int, rv *rview) {
 	if len(k) == 0 || k[0] < 3 {
 		k = genKey(s.rng)
 	}
-	if s.rng.Intn(3) == 0 {
+	switch s.rng.Intn(4) {
+	case 0:
 		rv.v.Delete(k)
-		rv.local[string(k)] = nil
+		rv.write(k, nil)
 		s.op(Con("OVDel", I64(int64(slot)), Byt(k)), Con("AUnit"))
-	} else {
+	case 1: // Apply(patch): several writes at once
+		ops := genPatch(s.rng, sortedKeys(rv.content()))
+		if err := rv.v.Apply(mkPatch(ops)); err != nil {
+			s.out.Oracle(false, "view-apply-error", M{"err": err.Error()})
+		}
+		for _, o := range ops {
+			if o.del {
+				rv.write(o.k, nil)
+			} else {
+				rv.write(o.k, o.v)
+			}
+		}
+		s.op(Con("OVApply", I64(int64(slot)), patchT(ops)), Con("AUnit"))
+		s.tag["view-apply"] = true
+	default:
 		v := genVal(s.rng)
 		rv.v.Put(k, v)
-		rv.local[string(k)] = v
+		rv.write(k, v)
 		s.op(Con("OVPut", I64(int64(slot)), Byt(k), Byt(v)), Con("AUnit"))
 	}
 	s.tag["view-write"] = true
+}
+
+func (s *seqRun) doSub(slot int, rv *rview, nslot int) {
+	c := rv.content()
+	var p []byte
+	ks := userKeys(sortedKeys(c))
+	if len(ks) > 0 && s.rng.Intn(3) != 0 {
+		k := ks[s.rng.Intn(len(ks))]
+		p = []byte(k[:1+s.rng.Intn(len(k))])
+	} else {
+		p = genKey(s.rng)[:1]
+	}
+	sn := rv.v.Subset(p)
+	s.views[nslot] = &rview{v: sn, parent: rv, sub: append([]byte{}, p...)}
+	s.op(Con("OVSub", I64(int64(slot)), I64(int64(nslot)), Byt(p)), Con("AUnit"))
+	s.tag["subset"] = true
 }
 
 func (s *seqRun) doSnap(slot int, rv *rview, nslot int) {
@@ -516,10 +579,33 @@ func (s *seqRun) doChanges(slot int, rv *rview) {
 	ops := patchOps(p)
 	s.op(Con("OVChanges", I64(int64(slot))), Con("APatch", patchT(ops)))
 	// property: the change set replays to exactly the view's writes
-	below := rv.base
-	if rv.parent != nil {
-		below = rv.parent.content()
+	// what the view shows without its own writes
+	below := map[string][]byte{}
+	cont := rv.content()
+	for k, v := range cont {
+		below[k] = v
 	}
+	var withoutOwn func(r *rview) map[string][]byte
+	withoutOwn = func(r *rview) map[string][]byte {
+		if r.sub != nil {
+			m := map[string][]byte{}
+			for k, v := range withoutOwn(r.parent) {
+				if bytes.HasPrefix([]byte(k), r.sub) {
+					m[k[len(r.sub):]] = v
+				}
+			}
+			return m
+		}
+		m := map[string][]byte{}
+		if r.parent != nil {
+			m = r.parent.content()
+		}
+		for k, v := range r.base {
+			m[k] = v
+		}
+		return m
+	}
+	below = withoutOwn(rv)
 	replayed := applyOps(below, ops)
 	s.out.Oracle(refDump(replayed) == refDump(rv.content()), "changes-replay-exact", M{"got": refDump(replayed), "want": refDump(rv.content())})
 	sorted := true
@@ -565,6 +651,11 @@ func runSeq(rng *rand.Rand, out *Out, steps int, mode string) {
 			if sl, rv := s.pickSlot(); rv != nil {
 				s.nview++
 				s.doSnap(sl, rv, s.nview)
+			}
+		case x < 55:
+			if sl, rv := s.pickSlot(); rv != nil {
+				s.nview++
+				s.doSub(sl, rv, s.nview)
 			}
 		case x < 62:
 			if sl, rv := s.pickSlot(); rv != nil {
